@@ -2,6 +2,8 @@
 From Coq Require Import List Arith ZArith Bool.
 Import ListNotations.
 From PF Require Import Arr Net SweepDown SweepUp Rank Fill FillSpec Stream Ops OpsSpec.
+From PF Require Import GenLoopsEq.
+From PFG Require Import GenLoops.
 Local Open Scope Z_scope.
 
 Theorem downstream_spec : forall ds data i, (i < length ds)%nat ->
@@ -99,3 +101,13 @@ Print Assumptions floodplain_spec.
 (* non-vacuity *)
 Example hand_example : topo [0;0;1]%nat [0;1;2]%nat /\ hand [0;0;1]%nat [0;1;2]%nat [true;false;false] [5;7;12] = [0;2;7].
 Proof. split; [apply check_topo_sound; vm_compute; reflexivity|vm_compute; reflexivity]. Qed.
+
+(* TIE BY TRANSLATION: the loops regenerated from core.py / arithmetics.py on every run ARE the models above *)
+Theorem gen_upstream_sum_eq : forall ds data nodata, length data = length ds ->
+  gen_upstream_sum ds data nodata = upstream_sum ds data nodata.
+Proof. exact GenLoopsEq.gen_upstream_sum_eq. Qed.
+Print Assumptions gen_upstream_sum_eq.
+Theorem gen_fillnodata_upstream_eq : forall ds sq data nodata, length data = length ds -> (forall i, In i sq -> valid ds i) ->
+  gen_fillnodata_upstream ds sq data nodata = fillnodata_upstream ds sq data nodata.
+Proof. exact GenLoopsEq.gen_fillnodata_upstream_eq. Qed.
+Print Assumptions gen_fillnodata_upstream_eq.
